@@ -50,20 +50,34 @@ def main():
     shutil.rmtree(d, ignore_errors=True)
     if "--mc-only" in sys.argv:
         return 0 if ok else 1
-    st = subprocess.run(["git", "-C", "/repo", "status", "--short"], capture_output=True, text=True).stdout.strip()
-    if st:
-        print("/repo not clean"); return 2
+    # mutants: each in its own scratch worktree of /repo's HEAD (removed afterwards); /repo and /verif/evidence are not touched
     d = os.path.join(os.path.dirname(os.path.abspath(__file__)), "..", "selftest", "mutants")
-    for f, chk in MUT.items():
+    from concurrent.futures import ThreadPoolExecutor
+
+    def one(item):
+        f, chk = item
+        wt = os.path.join("/tmp/st", f.replace(".diff", ""))
+        subprocess.run(["git", "-C", "/repo", "worktree", "remove", "--force", wt], capture_output=True)
+        shutil.rmtree(wt, ignore_errors=True)
+        os.makedirs("/tmp/st", exist_ok=True)
+        assert subprocess.run(["git", "-C", "/repo", "worktree", "add", "-q", "--detach", wt, "HEAD"]).returncode == 0
         try:
-            assert subprocess.run(["git", "-C", "/repo", "apply", os.path.join(d, f)]).returncode == 0
-            p = subprocess.run(["/verif/check", chk], capture_output=True, text=True)
+            assert subprocess.run(["git", "-C", wt, "apply", os.path.join(d, f)]).returncode == 0, "mutant does not apply: " + f
+            env = dict(os.environ, VERIF_REPO=wt, VERIF_BUILD=wt + "-build", VERIF_EVIDENCE=wt + "-ev")
+            p = subprocess.run([os.path.join(os.path.dirname(os.path.abspath(__file__)), "..", "check"), chk], capture_output=True, text=True, env=env)
             lines = [l for l in p.stdout.splitlines() if l.startswith("violation detail")]
-            good = p.returncode == 1
-            print("%s -> check %s exit=%d %s\n    %s" % (f, chk, p.returncode, "OK (detected)" if good else "NOT DETECTED", (lines or [""])[0][:300]))
-            ok &= good
+            return f, chk, p.returncode, (lines or [""])[0][:300]
         finally:
-            subprocess.run(["git", "-C", "/repo", "checkout", "--", "."])
+            subprocess.run(["git", "-C", "/repo", "worktree", "remove", "--force", wt], capture_output=True)
+            shutil.rmtree(wt + "-build", ignore_errors=True)
+            shutil.rmtree(wt + "-ev", ignore_errors=True)
+
+    with ThreadPoolExecutor(4) as ex:
+        for f, chk, rc, first in ex.map(one, list(MUT.items())):
+            good = rc == 1
+            print("%s -> check %s exit=%d %s\n    %s" % (f, chk, rc, "OK (detected)" if good else "NOT DETECTED", first))
+            ok &= good
+    subprocess.run(["git", "-C", "/repo", "worktree", "prune"], capture_output=True)
     return 0 if ok else 1
 
 
